@@ -319,8 +319,8 @@ type c10Program struct {
 func c10Untyped(rnd *Rand) c10Program {
 	r := &c10Ref{vars: map[string]interface{}{
 		"a": []interface{}{int64(1), int64(2), int64(3)}, "b": []interface{}{}, "c": []interface{}{"p", "q"},
-		"m": map[interface{}]interface{}{"x": int64(1)}, "n": map[interface{}]interface{}{}, "s": "hello", "t": ""}}
-	lines := []string{`a = [1, 2, 3]; b = []; c = ["p", "q"]; m = {"x": 1}; n = {}; s = "hello"; t = ""`}
+		"m": map[interface{}]interface{}{"x": int64(1)}, "n": map[interface{}]interface{}{}, "s": "hello", "t": "hé"}}
+	lines := []string{`a = [1, 2, 3]; b = []; c = ["p", "q"]; m = {"x": 1}; n = {}; s = "hello"; t = "hé"`}
 	var want []string
 	n := 3 + rnd.Intn(10)
 	for i := 0; i < n; i++ {
